@@ -6,7 +6,9 @@ ones of its own property.  Three levels:
   MS  classify.match_storms on float arrays,
   CL  `spowtd load` + `spowtd classify` through the CLI, tables vs model.
 """
+import contextlib
 import copy
+import logging
 import sqlite3
 from fractions import Fraction
 
@@ -18,6 +20,59 @@ from harness import gen_classify as G
 
 PRE = 'From Spowtd Require Import Model.ClassifyData Model.DepthView.\nFrom Coq Require Import Qabs.\nClose Scope Q_scope.\n'
 KNOWN_DUR = 'C02/duration-off-by-one'
+
+
+# ------------------------------------------------------------------ the classify command, at every verbosity
+
+VERBOSITY = [[], ['-v'], ['-vv'], ['-vvv']]     # ERROR / WARNING / INFO / DEBUG (user_interface.LEVELS)
+
+
+def with_verbosity(rec, k):
+    """The record with the verbosity of its classify run fixed: the results must not depend on how chatty the
+    program is asked to be.  Rotates none / -v / -vv / -vvv by case index; kept in the record so that a
+    replayed case runs at the same verbosity."""
+    return rec if 'verb' in rec else dict(rec, verb=k % len(VERBOSITY))
+
+
+@contextlib.contextmanager
+def logging_restored():
+    """`spowtd.user_interface.main` reconfigures the root logger (level, one stream handler) on every call:
+    put level and handlers back afterwards, so that a -vvv run does not leave DEBUG switched on (nor a handler
+    on a captured stream) for whatever runs next in this process."""
+    root = logging.getLogger()
+    level, handlers, disabled = root.level, root.handlers[:], logging.root.manager.disable
+    try:
+        yield
+    finally:
+        for h in root.handlers[:]:
+            if h not in handlers:
+                root.removeHandler(h)
+                h.close()
+        for h in handlers:
+            if h not in root.handlers:
+                root.addHandler(h)
+        root.setLevel(level)
+        logging.disable(disabled)
+
+
+def classify_cli(db, rec, out):
+    """`spowtd classify DB -s .. -j .. [-v|-vv|-vvv]` in-process; the log messages go to the captured stderr of
+    D.cli (--logfile defaults to the sys.stderr current when the parser is built), nothing reaches the terminal."""
+    flags = VERBOSITY[rec.get('verb', 0) % len(VERBOSITY)]
+    out.count('classify-verbosity:' + (flags[0] if flags else 'none'))
+    with logging_restored():
+        return D.cli(['classify', db, '-s', rec['thr_s'], '-j', rec['thr_j']] + flags)
+
+
+def label_hole(st, out):
+    """Count datasets whose data-interval numbers (as stored by load) are not 1..n without a hole."""
+    labels = [s['label'] for s in st]
+    if len(labels) >= 2:
+        out.count('labels>=2')
+    if labels != list(range(1, len(labels) + 1)):
+        out.count('labels-with-hole')
+        return True
+    return False
 
 
 # ------------------------------------------------------------------ oracles
@@ -343,8 +398,11 @@ def check_cl(recs, out, keep, prop, label):
     batch = MSBatch()
     depth_cases, depth_meta = [], []
     for k, rec in enumerate(recs):
+        rec = with_verbosity(rec, k)
         out.evaluations += 1
         out.count('CL:' + rec['cls'])
+        if rec.get('fine', 1) > 1:
+            out.count('CL-fine-water-level(x%d)%s' % (rec['fine'], '+island' if rec.get('island') else ''))
         d = D.scratch(prop, 'cl_db')
         ds = G.to_dataset(rec)
         case = dict(level='CL', rec=rec)
@@ -352,7 +410,7 @@ def check_cl(recs, out, keep, prop, label):
         if exc is not None:
             out.count('CL-load-refused')
             continue
-        rc, exc, _ = D.cli(['classify', db, '-s', rec['thr_s'], '-j', rec['thr_j']])
+        rc, exc, _ = classify_cli(db, rec, out)
         if exc is not None:
             if 'C01' in keep:
                 out.violation('oracle', 'classify failed with %s: %s on a dataset that loads (class %s, '
@@ -360,6 +418,7 @@ def check_cl(recs, out, keep, prop, label):
                               case=case)
             continue
         st, step = D.stretches(db)
+        label_hole(st, out)
         storms, zi, zis, depth, rainrows, thr = read_matching(db)
         delta = rec['thr_j'] * (step / 3600.0)
         if thr != [(rec['thr_s'], rec['thr_j'])] and 'C01' in keep:
